@@ -356,6 +356,7 @@ class Gen:
         for h in history:
             used.update(h.get("args") or [])
         cands = []
+        promised = []
         for h in history:
             if h.get("status") != "ok" or h["mode"] == "env" or h["op"] in self.NO_POKE or h["op"].startswith("u_"):
                 continue
@@ -370,8 +371,9 @@ class Gen:
                 # of a degenerate quadric, copy(), copy=False, ...): a result is the caller's own only if it shares
                 # memory with no other live object -- or comes from a constructor that promises a copy
                 shares = False
+                fresh = h["op"] in self.FRESH_BY_CONTRACT or (h["op"] == "getitem" and _advanced((h.get("p") or {}).get("idx")))
                 for t_, x in self.world.slots.items():
-                    if t_ == s_ or (h["op"] in self.FRESH_BY_CONTRACT and t_ in h["args"]):
+                    if t_ == s_ or (fresh and t_ in h["args"]):
                         continue
                     for arr in _arrays_of(x):
                         if np.may_share_memory(a, arr):
@@ -381,9 +383,12 @@ class Gen:
                         break
                 if not shares:
                     cands.append(s_)
+                    if fresh:
+                        promised.append(s_)
         if not cands:
             return None
-        slot = self.rng.choice(cands)
+        # results that exist only because some call promised a copy are the interesting ones to edit
+        slot = self.rng.choice(promised) if promised and self.rng.random() < 0.6 else self.rng.choice(cands)
         return {"i": i, "c": client, "op": "$poke", "args": [slot], "p": {"flat": self.rng.randrange(1 << 16)},
                 "out": [], "mode": "env"}
 
@@ -393,6 +398,17 @@ class Gen:
                 self.hot.append(s)
                 if len(self.hot) > self.cfg["hot"] + 2:
                     self.hot.pop(0)
+
+
+def _advanced(j) -> bool:
+    """an (encoded) index with a mask or an integer array in it: numpy's advanced indexing, whose result is a copy the
+    caller owns -- unlike slices and integers, which give views"""
+    if isinstance(j, dict):
+        if "a" in j or "f" in j or "nb" in j:
+            return True
+        if "t" in j:
+            return any(_advanced(x) for x in j["t"])
+    return False
 
 
 def _arrays_of(x, depth=0):
